@@ -271,6 +271,17 @@ def build_traces(path, tier, seed):
         add({"kind": "sig", "variant": variant, "dt": enc(dt), "a": enc_seq(np.asarray(a, dtype=float)), "lo": enc(lo), "hi": enc(hi), "raised": bool(r),
              "t0": enc(t0), "t1": enc(t1), "dur": enc(d)},
             {"kind": "sig", "variant": variant, "n": n, "shape": shape + " (%s counts)" % np.dtype(dt_).name, "dt": dt, "lo": lo, "hi": hi, "raised": bool(r), "t0": t0, "t1": t1})
+        if dt_ is not np.uint8:
+            # the type's most negative count (no absolute value in the type itself) brackets the strong motion
+            ii = np.iinfo(dt_)
+            a2 = a.copy()
+            j1, j2 = sorted(int(v) for v in rng.choice(n, size=2, replace=False))
+            a2[j1] = a2[j2] = ii.min
+            thr = float(top) + 1.0 + float(rng.uniform(0, -float(ii.min) - top - 2.0))      # above every other sample, below |min count|
+            HISTORY["on"] = False
+            none, b0, b1, bd = brac(a2, dt, thr)
+            add({"kind": "brac", "dt": enc(dt), "a": enc_seq(np.asarray(a2, dtype=float)), "thr": enc(thr), "none": bool(none), "t0": enc(b0), "t1": enc(b1), "dur": enc(bd)},
+                {"kind": "brac", "n": n, "shape": shape + " (%s counts with the most negative count)" % np.dtype(dt_).name, "thr": thr, "none": bool(none), "t0": b0, "t1": b1})
     # a non-monotone user-supplied measure whose oscillation crosses both fractions several times (the in-band samples are then
     # not a single run: the first and the last of them are not the first crossing of one fraction and the last of the other)
     HISTORY["on"] = False
